@@ -297,11 +297,7 @@ def layout_die_body(S, fixed, dims, focus, init, topo="path"):
     cut = loopcut.instantiate(code, sa.spectral_layout_die, havoc, restrict_fn=restrict)
     ns = cut.__globals__
     ns["normalize"] = ghost.wrap(S, sa.normalize)
-    # orthogonalize's internal numerical self-check never fires over the reals (leaf contract
-    # orthogonalize_is_exact_and_keeps_fixed_entries, same sizes): here its real code runs with that check discharged
-    g2 = dict(sa.orthogonalize.__globals__)
-    g2["abs_norm_dot_product"] = lambda v1, v2, weight: 0.0
-    ns["orthogonalize"] = types.FunctionType(sa.orthogonalize.__code__, g2, "orthogonalize")
+    # orthogonalize runs as it is, its internal numerical self-check included (over the reals the residual is exactly zero)
     ns["random"] = types.SimpleNamespace(uniform=uniform)
     init_copy = [list(r) for r in initial]
     out = S.call(cut, adj, mass, size, initial, fixed)
